@@ -82,7 +82,10 @@ def _calls(db, fi):
 
 
 def _private(fi):
-    return fi.name.startswith("_") and not fi.name.startswith("__")
+    """Private helper: an underscore name, or any function of a package-private module (`_numeric.find_monotone_root`)."""
+    if fi.name.startswith("__"):
+        return False
+    return fi.name.startswith("_") or (fi.cls is None and fi.module.qualname.rsplit(".", 1)[-1].startswith("_"))
 
 
 def _reach_private(db, start, limit=4):
@@ -134,7 +137,40 @@ def _unique(items):
     return list(qs.values())[0] if len(qs) == 1 else None
 
 
+PUBLIC_ANCHORS = {
+    "score_analysis.utils.binomial_ci", "score_analysis.utils.bootstrap_ci", "score_analysis.utils.invert_pl_function",
+    "score_analysis.scores.pointwise_cm", "score_analysis.roc_curve.roc", "score_analysis.roc_curve.roc_with_ci",
+    "score_analysis.showbias.showbias", "score_analysis.group_scores.groupwise",
+    "score_analysis.applications.doc_fraud.binary_to_doc_label", "score_analysis.applications.doc_fraud.doc_to_binary_label",
+}
+
+
+def _reexports(db, applied):
+    """A public function moved into a package-private module (`_stats.py`, `_numeric.py`, ...) and re-exported from its old public
+    module keeps its public import path as its canonical name (rules, stubs and events address it by that path).  When several public
+    modules import it, the path the rules know (PUBLIC_ANCHORS) wins, else the first in module order."""
+    cands = {}
+    for mq, mi in sorted(db.modules.items()):
+        if mq.rsplit(".", 1)[-1].startswith("_"):
+            continue
+        for name, imp in sorted(mi.imports.items()):
+            if imp[0] == "module" or name.startswith("_"):
+                continue
+            _k, base, sym = imp
+            if base not in db.modules or not base.rsplit(".", 1)[-1].startswith("_") or base.rsplit(".", 1)[-1] == "__init__":
+                continue
+            r = db.resolve_name(mi, name)
+            if isinstance(r, FunctionInfo) and r.cls is None and r.module.qualname == base:
+                cands.setdefault(id(r), (r, []))[1].append(mq + "." + name)
+    for r, paths in cands.values():
+        if getattr(r, "role_of", None) is not None:
+            continue
+        known = [p_ for p_ in paths if p_ in PUBLIC_ANCHORS]
+        _relabel(db, r, (known or paths)[0], applied)
+
+
 def _apply(db, applied):
+    _reexports(db, applied)
     # ---- threshold setting
     fronts = [_find(db, "%s.threshold_at_%s" % (S, m)) for m in ("tpr", "fnr", "tnr", "fpr", "topr", "tonr")]
     tar = _find(db, S + "._threshold_at_ratio")
